@@ -192,6 +192,11 @@ class SecNode:
                 self.log.info('Pinata %s found %d modules',
                               modname, len(pinata_modules))
                 todos.extend(pinata_modules)
+        # initialize all modules, exported or not: a module which is neither
+        # exported nor attached to an other module would else be started
+        # without earlyInit and initModule being called
+        for modname in list(self.modules):
+            self.get_module(modname)
 
     def export_accessibles(self, modulename):
         self.log.debug('export_accessibles(%r)', modulename)
